@@ -14,6 +14,15 @@ func FBetweenInc(f, p, q float64) bool {
 	return q <= f && f <= p
 }
 
+// IFloorDiv divides rounding toward negative infinity (q > 0)
+func IFloorDiv(p, q int64) int64 {
+	d := p / q
+	if p%q < 0 {
+		d--
+	}
+	return d
+}
+
 func Pow2(n uint) uint {
 	return 1 << n
 }
